@@ -309,6 +309,103 @@ def check_whole(i, L):
     return None
 
 
+# ------------------------------------------------ refusals and early exits
+
+_G = {}
+
+
+def guarded_template(src, refuse):
+    """A template whose item guard refuses the element at index `refuse`
+    (the element is handed over by the sequence first, as with any guard)."""
+    from DocumentTemplate import HTML
+    from zExceptions import Unauthorized
+    key = (src, refuse)
+    if key not in _G:
+        class Guarded(HTML):
+            def guarded_getitem(self, ob, index):
+                v = ob[index]
+                if index == refuse:
+                    raise Unauthorized('item %d' % index)
+                return v
+
+            def guarded_getattr(self, inst, name, default=_G):
+                if default is _G:
+                    return getattr(inst, name)
+                return getattr(inst, name, default)
+        _G[key] = Guarded(src)
+    return _G[key]
+
+
+def check_refused(case):
+    """['refused', L, seqkind, start, size, orphan, refuse, skip] - a batch
+    whose item guard refuses one element of the window: the pulls stay
+    within the bound whether the rendering skips the element or fails."""
+    _, L, seqkind, start, size, orphan, refuse, skip = case
+    seq, handed = make_seq(seqkind, L)
+    src = ('<dtml-in s start=%d size=%d orphan=%d%s>[<dtml-var sequence-item>]'
+           '</dtml-in>' % (start, size, orphan,
+                           ' skip_unauthorized' if skip else ''))
+    t = guarded_template(src, refuse)
+    try:
+        with cpu_limit(5.0):
+            out = ('text', t(s=handed))
+    except Runaway:
+        return 'no-termination:refused-item', '%r: more than 20000 elements ' \
+            'pulled' % case
+    except CpuTimeout:
+        return 'no-termination:refused-item', '%r: 5 CPU-seconds' % case
+    except Exception as e:
+        out = ('raise', type(e).__name__)
+    in_window = start - 1 <= refuse <= start + size - 2 and (
+        L is None or refuse < L)
+    if in_window and not skip and out[0] != 'raise' and (L is None or
+                                                         start <= L):
+        return 'refused-item-shown', '%r rendered %r' % (case, out)
+    bound = start + size - 1 + size + orphan
+    lazy = seqkind.startswith('lazy')
+    used = (seq.maxindex + 1 if L is None else min(seq.maxindex + 1, L)) \
+        if lazy else seq.pulled
+    limit = bound if L is None else min(L, bound)
+    if used > limit:
+        return ('excess-pull:refused-item', '%r: bound %d but %d elements '
+                'pulled (%r)' % (case, bound, used, out))
+    if lazy and seq.lens and (L is None or L > bound):
+        return ('len-called:refused-item', '%r: __len__ called' % case)
+    return None
+
+
+EXITS = {
+    'return': '<dtml-in s>[<dtml-var sequence-item>]<dtml-if "_[\'sequence-'
+              'item\'] == k"><dtml-return sequence-item></dtml-if></dtml-in>',
+    'raise-caught': '<dtml-try><dtml-in s>[<dtml-var sequence-item>]'
+                    '<dtml-if "_[\'sequence-item\'] == k"><dtml-raise '
+                    'KeyError>k</dtml-raise></dtml-if></dtml-in>'
+                    '<dtml-except KeyError>caught</dtml-try>',
+    'raise': '<dtml-in s>[<dtml-var sequence-item>]<dtml-if "_[\'sequence-'
+             'item\'] == k"><dtml-raise KeyError>k</dtml-raise></dtml-if>'
+             '</dtml-in>',
+}
+
+
+def check_exit(case):
+    """['exit', how, L, k, seqkind] - an unbatched loop left at element k
+    (return / exception): every element is still pulled exactly once."""
+    _, how, L, k, seqkind = case
+    seq = Counting(L)
+    src = iter(seq) if seqkind == 'iter' else (x for x in seq)
+    try:
+        with cpu_limit(5.0):
+            template(EXITS[how])(s=src, k=k)
+    except (Runaway, CpuTimeout):
+        return 'no-termination:exit', repr(case)
+    except Exception:
+        pass
+    if seq.pulled != L:
+        return ('plain-pulls:early-exit', '%r: %d of %d elements pulled' % (
+            case, seq.pulled, L))
+    return None
+
+
 R = dict(start=range(-1, 17), end=range(-1, 17), size=range(-1, 8),
          orphan=range(0, 5), overlap=range(0, 4))
 
@@ -322,6 +419,8 @@ def plan(tier, seed):
             for half in (0, 1):
                 shards.append(dict(kind='enum', L=L, seqkind=kind, half=half))
     shards.append(dict(kind='plain'))
+    for kind in SEQKINDS:
+        shards.append(dict(kind='refused', seqkind=kind))
     for L in (None, 9, 14):
         for kind in SEQKINDS:
             if kind == 'lazy-nolen' and L is not None:
@@ -340,11 +439,37 @@ def run_shard(shard):
                          distinct_by_construction=True)
                 if bad:
                     acc.fail(bad[0], ['plain', L, k], bad[1])
+            for how in sorted(EXITS):
+                for k in range(1, L + 1):
+                    for sk in ('iter', 'gen'):
+                        case = ['exit', how, L, k, sk]
+                        bad = check_exit(case)
+                        acc.case(case, k < L, klass='unbatched-early-exit',
+                                 distinct_by_construction=True)
+                        if bad:
+                            acc.fail(bad[0], case, bad[1])
             for i in range(len(WHOLE)):
                 bad = check_whole(i, L)
                 acc.case(['whole', i, L], False, klass='whole-sequence')
                 if bad:
                     acc.fail(bad[0], ['whole', i, L], bad[1])
+        return acc.result()
+    if shard['kind'] == 'refused':
+        kind = shard['seqkind']
+        for L in (None, 6, 40):
+            if kind == 'lazy-nolen' and L is not None:
+                continue
+            for start, size, orphan, skip in itertools.product(
+                    (1, 2, 5), (1, 3), (0, 2), (0, 1)):
+                for refuse in range(0, start + 2 * size + 1):
+                    case = ['refused', L, kind, start, size, orphan, refuse,
+                            skip]
+                    bad = check_refused(case)
+                    acc.case(case, start - 1 <= refuse <= start + size - 2,
+                             klass=['refused-item', 'producer:' + kind],
+                             distinct_by_construction=True)
+                    if bad:
+                        acc.fail(bad[0], case, bad[1])
         return acc.result()
     L, kind = shard['L'], shard['seqkind']
     if shard['kind'] == 'variants':
@@ -378,4 +503,8 @@ def replay(case):
         return check_plain(case[1], case[2])
     if case[0] == 'whole':
         return check_whole(case[1], case[2])
+    if case[0] == 'refused':
+        return check_refused(case)
+    if case[0] == 'exit':
+        return check_exit(case)
     return check(case)
